@@ -70,8 +70,37 @@ def blank_in_multiline():
     )
 
 
+def tight_spacing():
+    """tokens that white-space rules look at, written with no space between them and with several spaces"""
+    return (
+        "library ieee;\nuse ieee.std_logic_1164.all;\n\nentity e is\n  generic(\n    g_w:integer:=8\n  );\n  port(\n    a:in std_logic;\n    b   :   out    std_logic:='0'\n  );\nend entity e;\n\narchitecture rtl of e is\n\n"
+        + "  signal wr_en_q:std_logic;\n  signal   s2   :   std_logic_vector(3 downto 0):=(others=>'0');\n  constant c_i:integer:=3;\n\nbegin\n\n  b<=a;\n  wr_en_q <='1' when a='1' else'0';\n\n"
+        + "  p1:process(a)is\n    variable v:integer:=0;\n  begin\n    if(a='1')then\n      v:=v+1;\n      s2(0)<=a;\n    end if;\n  end process p1;\n\nend architecture rtl;\n"
+    )
+
+
+def case_align():
+    """a case statement whose alternatives have assignment targets of different lengths, an if and a loop around assignments"""
+    return (
+        HEAD
+        + "  signal x, xyz_long_name, q, ab : std_logic;\n\nbegin\n\n  p1 : process (a) is\n  begin\n    case a is\n      when '0' =>\n        x <= '1';\n        xyz_long_name <= '0';\n      when others =>\n        q <= '1';\n        ab <= '0';\n    end case;\n"
+        + "    if a = '1' then\n      x <= '0';\n      xyz_long_name <= '1';\n    end if;\n    for i in 0 to 1 loop\n      q <= '0';\n      ab <= '1';\n    end loop;\n  end process p1;\n\nend architecture rtl;\n"
+    )
+
+
+def linestart_ops():
+    """continuation lines that begin with an operator or a parenthesis, at column 0 and indented; trailing white space"""
+    return (
+        HEAD
+        + "  signal s1, s2 : std_logic;  \n  signal v : std_logic_vector(1 downto 0);\n\nbegin\n\n  s1 <= a\n&a;\n  s2 <= a\n    and a\n    or a;\n  v <= a\n  &s1;\n\n  u1 : entity work.x\n    port map\n    ( a => a\n    , b => open\n    );   \n\n  p1 : process (a) is\n  begin\n    s1 <= a\n+a;\n  end process p1;\n\nend architecture rtl;\n"
+    )
+
+
 def all_designs():
     d = {}
+    d["tight_spacing"] = tight_spacing()
+    d["case_align"] = case_align()
+    d["linestart_ops"] = linestart_ops()
     d["blank_in_multiline"] = blank_in_multiline()
     for kind in ("block", "for_generate", "if_generate"):
         for depth in (1, 2, 3, 4):
